@@ -187,3 +187,98 @@ def param_index_rule(m, rid, exceptions=None):
     if stale:
         r.notes.append("exceptions no longer needed: %s" % stale)
     return r
+
+
+# =================================================================================================
+# the text after a delimiter found with find()/index() starts right behind the delimiter
+# =================================================================================================
+def delimiter_offset_rule(m, rid):
+    r = RuleResult(rid, "where text is cut behind a delimiter located with find()/rfind()/index(), the cut starts exactly len(delimiter) "
+                        "characters after the position found (no character skipped, none of the delimiter kept)")
+    r.floor = 80
+    for (path, q), f in sorted(m.funcs.items()):
+        if "/tests/" in path or "/fparser/" not in path:
+            continue
+        finds = {}
+        for n in A.body_nodes(f.node):
+            if isinstance(n, ast.Assign) and len(n.targets) == 1 and isinstance(n.targets[0], ast.Name) and isinstance(n.value, ast.Call) \
+                    and isinstance(n.value.func, ast.Attribute) and n.value.func.attr in ("find", "rfind", "index", "rindex") \
+                    and n.value.args and isinstance(A.const(n.value.args[0]), str):
+                finds.setdefault(n.targets[0].id, []).append((A.text(n.value.func.value), A.const(n.value.args[0]), n))
+        if not finds:
+            continue
+        for n in A.body_nodes(f.node):
+            if not (isinstance(n, ast.Subscript) and isinstance(n.slice, ast.Slice) and n.slice.lower is not None):
+                continue
+            lo = n.slice.lower
+            if not (isinstance(lo, ast.BinOp) and isinstance(lo.op, ast.Add) and isinstance(lo.left, ast.Name) and lo.left.id in finds
+                    and isinstance(A.const(lo.right, None), int)):
+                continue
+            k = A.const(lo.right)
+            defs = [d for d in finds[lo.left.id] if d[2].lineno <= n.lineno]
+            if not defs:
+                continue
+            base, lit, dn = max(defs, key=lambda d: d[2].lineno)
+            if base != A.text(n.value):
+                continue
+            r.instances += 1
+            ok = k == len(lit)
+            r.ob(ok, "%s: `%s` behind %r" % (q, A.text(n), lit) if r.instances % 10 == 0 else None)
+            if not ok:
+                r.fail("%s|offset|%s|%d" % (q, lit, k), "%s cuts `%s` where `%s` is the position of %r (%d characters): %s" % (
+                    q, A.text(n), lo.left.id, lit, len(lit),
+                    "the first %d character(s) after the delimiter are dropped from the statement (`=>ab` gives `b`)" % (k - len(lit)) if k > len(lit)
+                    else "part of the delimiter stays in the text"), m.loc(f, n))
+    return r
+
+
+# =================================================================================================
+# keyword prefixes: `x[:n].upper() == "KEYWORD"` compares exactly len(KEYWORD) characters and the text continues at n
+# =================================================================================================
+def keyword_prefix_rule(m, rid):
+    r = RuleResult(rid, "a keyword prefix test `x[:n] == KEYWORD` compares exactly len(KEYWORD) characters and the remaining text is cut at the "
+                        "same n (no character of the statement skipped, none of the keyword left in)")
+    r.floor = 60
+    for (path, q), f in sorted(m.funcs.items()):
+        if "/tests/" in path or "/fparser/" not in path:
+            continue
+        nodes = list(A.body_nodes(f.node))
+        for n in nodes:
+            if not (isinstance(n, ast.Compare) and len(n.ops) == 1 and isinstance(n.ops[0], (ast.Eq, ast.NotEq))):
+                continue
+            lit = A.const(n.comparators[0], None)
+            x = n.left
+            if isinstance(x, ast.Call) and isinstance(x.func, ast.Attribute) and x.func.attr in ("upper", "lower") and not x.args:
+                x = x.func.value
+            if not (isinstance(lit, str) and lit and isinstance(x, ast.Subscript) and isinstance(x.slice, ast.Slice) and x.slice.lower is None
+                    and x.slice.step is None and isinstance(A.const(x.slice.upper, None), int) and A.const(x.slice.upper) > 0):
+                continue
+            k = A.const(x.slice.upper)
+            base = A.text(x.value)
+            r.instances += 1
+            ok = k == len(lit)
+            why = None
+            if not ok:
+                why = "`%s` compares %d characters with the %d-character literal %r: it can never be equal" % (A.text(n)[:40], k, len(lit), lit)
+            else:
+                # the first later cut `base[j:]` (before base is re-bound) continues at k
+                pos = (n.lineno, n.col_offset)
+                rebinds = [s for s in nodes if isinstance(s, ast.Assign) and any(A.text(t) == base for t in s.targets) and (s.lineno, s.col_offset) > pos]
+                limit = min([(s.lineno, s.col_offset) for s in rebinds], default=(10 ** 9, 0))
+                cuts = [s for s in nodes if isinstance(s, ast.Subscript) and isinstance(s.slice, ast.Slice) and s.slice.upper is None
+                        and s.slice.step is None and isinstance(A.const(s.slice.lower, None), int) and A.text(s.value) == base
+                        and pos < (s.lineno, s.col_offset) and (s.lineno, s.col_offset) <= (limit[0], 10 ** 9)]
+                if cuts:
+                    s0 = min(cuts, key=lambda s: (s.lineno, s.col_offset))
+                    # another keyword test on the same base in between means the cut belongs to that one
+                    between = [c2 for c2 in nodes if isinstance(c2, ast.Compare) and c2 is not n and pos < (c2.lineno, c2.col_offset) < (s0.lineno, s0.col_offset)
+                               and base in A.text(c2.left) and "[:" in A.text(c2.left)]
+                    if not between and A.const(s0.slice.lower) != k:
+                        ok = False
+                        why = "after `%s` the text continues at `%s`: %s" % (
+                            A.text(n)[:40], A.text(s0), "%d character(s) of the statement are skipped" % (A.const(s0.slice.lower) - k)
+                            if A.const(s0.slice.lower) > k else "the end of the keyword stays in the text")
+            r.ob(ok, "%s: `%s`" % (q, A.text(n)[:50]) if r.instances % 10 == 0 else None)
+            if not ok:
+                r.fail("%s|keyword-prefix|%s" % (q, lit), "%s: %s" % (q, why), m.loc(f, n))
+    return r
